@@ -401,11 +401,25 @@ pub fn scn_snapshots(o: &Opts, tr: &mut Tr, prop: &str) {
                     if step % 2 == 0 {
                         let fs: u64 = rs.gen();
                         let keep = st.clone();
-                        // the original itself runs to the end; a copy taken before must do the same
-                        let ro = cont_inf(&mut st, ip, &mut StdRng::seed_from_u64(fs));
-                        let mut a = keep.clone();
-                        let ra = cont_inf(&mut a, ip, &mut StdRng::seed_from_u64(fs));
-                        mism |= emit_pair(tr, "inflate_state_clone_resumes_identically", &ro, &ra);
+                        if step % 4 == 2 {
+                            // the continuation is one finishing call with everything still to come: the
+                            // object that was never copied against a copy of it
+                            let fin_once = |st: &mut InflateState, ip: usize| -> Value {
+                                let mut o = vec![0u8; s.p.len() + 70_000];
+                                let rr = inflate(st, &z[ip..], &mut o, MZFlush::Finish);
+                                json!({"status": crate::comp::mz_result(&rr.status), "consumed": rr.bytes_consumed, "out": out_val(&o[..rr.bytes_written.min(o.len())])})
+                            };
+                            let ro = fin_once(&mut st, ip);
+                            let mut a = keep.clone();
+                            let ra = fin_once(&mut a, ip);
+                            mism |= emit_pair(tr, "inflate_state_clone_finishes_identically", &ro, &ra);
+                        } else {
+                            // the original itself runs to the end; a copy taken before must do the same
+                            let ro = cont_inf(&mut st, ip, &mut StdRng::seed_from_u64(fs));
+                            let mut a = keep.clone();
+                            let ra = cont_inf(&mut a, ip, &mut StdRng::seed_from_u64(fs));
+                            mism |= emit_pair(tr, "inflate_state_clone_resumes_identically", &ro, &ra);
+                        }
                         st = keep;
                     }
                     let rem = z.len() - ip;
